@@ -1156,7 +1156,8 @@ class vcondition_variable {
             bool n = false;
             for (auto& w : waiters_)
                 if (w.t == me) n = w.notified;
-            return n ? 1u : ((sp ? 2u : 0u) | (to ? 4u : 0u));
+            // (a notified waiter of a timed wait may still report a time-out: the deadline passed before it woke up)
+            return n ? (1u | (to ? 4u : 0u)) : ((sp ? 2u : 0u) | (to ? 4u : 0u));
         };
         int why = vrt::sched_point(op);
         for (size_t i = 0; i < waiters_.size(); ++i)
